@@ -31,7 +31,7 @@ ASSUMPTIONS = ["source feature data are read through integer indexing of the sou
 MIN_EVALS = {"c02.hdf5.feature": 400, "c02.hdf5.metadata": 100, "c02.tsv.values": 100,
              "c02.hdf5.reopen_dclab": 80}
 WATCHDOG_S = {"quick": 400, "thorough": 3000}
-KINDS = ["dict", "hdf5", "hier1", "hier2", "basin", "tdms"]
+KINDS = ["dict", "hdf5", "hier1", "hier2", "basin", "tdms", "hdf5short"]
 
 
 def plan(tier, seed):
@@ -98,6 +98,13 @@ def build_source(ctx, rng, kind, idx):
         else int(rng.integers(1, 90))
     model = gd.gen_model(rng, n=n, hostile_logs=False, roi=(int(rng.integers(4, 10)),
                                                            int(rng.integers(4, 10))))
+    if kind == "hdf5short" and n > 2:
+        # interrupted recording: one feature holds fewer events than the others; the export
+        # documents that it then limits the output to the shortest feature
+        # (not the alphabetically first feature: that one defines the file's event count)
+        f = str(rng.choice(sorted(model["features"])[1:]))
+        k = int(rng.integers(1, max(2, n // 2)))
+        model["features"][f] = gd.slice_feature(model["features"][f], slice(0, n - k))
     desc = {"kind": kind, "model": gd.describe(model)}
     if kind == "dict" or (kind.startswith("hier") and rng.random() < 0.5):
         ds = dclab.new_dataset(dict(model["features"]))
@@ -143,7 +150,7 @@ def run_case(ctx, idx):
     from dclab.rtdc_dataset import writer
     from vmon import boot
     rng = ctx.rng(idx)
-    kind = str(rng.choice(KINDS, p=[.2, .25, .15, .15, .15, .1]))
+    kind = str(rng.choice(KINDS, p=[.2, .2, .13, .13, .14, .1, .1]))
     chunk_bytes = int(rng.choice([256, 4096, 1024 ** 2]))
     tmp = boot.scratch()
     writer.CHUNK_SIZE_BYTES = 1024 ** 2
@@ -204,7 +211,7 @@ def run_case(ctx, idx):
             # computed features are the subject of C06
             scal = [f for f in ds.features_scalar if f in avail or f == "index"]
             scal = [f for f in scal if rng.random() < 0.6] or scal[:1]
-            if scal:
+            if scal and kind != "hdf5short":
                 if rng.random() < 0.3:
                     scal = scal + [scal[0].upper()]
                 outt = tmp / f"c02_out_{idx}_{rep}.tsv"
